@@ -366,3 +366,44 @@ def dotted(n):
         b = dotted(n.value)
         return b + "." + n.attr if b else None
     return None
+
+
+
+def reachable_functions(program, roots):
+    """Repository functions reachable from the given (module name, function name) roots through resolved calls: plain names defined in the
+    same module, `alias.func` for imported repository modules, `from m import f` names.  Returns {(module name, function name): (Module, FunctionDef)}.
+    (Methods and dynamically bound callables are not followed: this is the static complement of the interpreter's list of executed functions.)"""
+    out = {}
+    todo = list(roots)
+    while todo:
+        mn, fn = todo.pop()
+        if (mn, fn) in out:
+            continue
+        mod = program.modules.get(mn)
+        if mod is None:
+            try:
+                mod = program.module(mn)
+            except Exception:
+                continue
+        node = mod.defs.get(fn)
+        if not isinstance(node, ast.FunctionDef):
+            continue
+        out[(mn, fn)] = (mod, node)
+        for c in ast.walk(node):
+            if not isinstance(c, ast.Call):
+                continue
+            f = c.func
+            if isinstance(f, ast.Name):
+                if isinstance(mod.defs.get(f.id), ast.FunctionDef):
+                    todo.append((mn, f.id))
+                else:
+                    imp = mod.imports.get(f.id)
+                    if imp and imp[0] == "from" and imp[1].startswith(program.package):
+                        todo.append((imp[1], imp[2]))
+            elif isinstance(f, ast.Attribute) and isinstance(f.value, ast.Name):
+                imp = mod.imports.get(f.value.id)
+                if imp and imp[0] == "module" and imp[1].startswith(program.package):
+                    todo.append((imp[1], f.attr))
+                elif imp and imp[0] == "from" and (imp[1] + "." + imp[2]).startswith(program.package):
+                    todo.append((imp[1] + "." + imp[2], f.attr))
+    return out
